@@ -42,7 +42,9 @@ def linear_spline(
     Reference:
     > Müller et al., Neural Importance Sampling, arXiv:1808.03856, 2018.
     """
-    if torch.min(inputs) < left or torch.max(inputs) > right:
+    # The inverse is defined on the output interval [bottom, top].
+    lower, upper = (bottom, top) if inverse else (left, right)
+    if torch.min(inputs) < lower or torch.max(inputs) > upper:
         raise InputOutsideDomain()
 
     if inverse:
